@@ -9,15 +9,15 @@ import (
 
 // generic node for both sides
 type N struct {
-	Kind     string // choice seq action labeled and not andCode notCode opt star plus lit class any ref
-	Kids     []*N
-	Label    string
-	Name     string // ruleRef name
-	Val      string // literal value / class raw text
-	IgnCase  bool
-	Code     string // code block (peg) or on-func name (go)
-	Class    *classSpec
-	Pos      string
+	Kind    string // choice seq action labeled and not andCode notCode opt star plus lit class any ref
+	Kids    []*N
+	Label   string
+	Name    string // ruleRef name
+	Val     string // literal value / class raw text
+	IgnCase bool
+	Code    string // code block (peg) or on-func name (go)
+	Class   *classSpec
+	Pos     string
 }
 
 type classSpec struct {
